@@ -54,6 +54,8 @@ THEOREMS = [
     'CpProofs.C19.ha2_no_valueError',
     'CpProofs.C19.b64decode_encode',
     'CpProofs.C19.basic_rfc7617_client',
+    'CpProofs.C19.utf8_roundtrip',
+    'CpProofs.C19.basic_rfc7617_client_utf8',
     'CpProofs.C19.parseHttpList_serialise',
     'CpProofs.C19.parse_serialise',
     'CpProofs.C19.parseAuth_serialised',
@@ -543,7 +545,7 @@ def run(ctx):
                 check_cases(ctx, world, [e['witness']])
         check_cases(ctx, world, corpus_cases())
         if ctx.quick():
-            n = 3000
+            n = 4000
             done = 0
             while done < n:
                 cases = cl.gen_batch(ctx.rng, world)
